@@ -780,7 +780,13 @@ func c04Cls(c string) string {
 }
 
 // ---------------------------------------------------------------- oracle tables for the Coq cases
-func c04Tabs(src string) (string, bool) {
+func c04Tabs(src string) (res string, ok bool) {
+	defer func() {
+		// a panicking lexer is judged where the library call is made under the guard, not here
+		if r := recover(); r != nil {
+			res, ok = "", false
+		}
+	}()
 	text := string([]rune(src))
 	toks, err := lexer.Lex(file.NewSource(text))
 	var floats, badre []string
